@@ -241,36 +241,25 @@ func RawChecks(out []byte) Raw {
 // the member names inside it: values produced by an external marshaler (encoding/json through
 // Interface, caller-supplied RawJSON) are one value to the builder discipline of EventDoc. The full
 // token list is still what the RFC 8259 automaton judges.
-func Collapse(lx Lexed, opaque []string) Lexed {
-	if len(opaque) == 0 {
+func Collapse(lx Lexed, opaque []string, opaqueEl ...string) Lexed {
+	if len(opaque) == 0 && len(opaqueEl) == 0 {
 		return lx
 	}
 	op := map[string]bool{}
 	for _, o := range opaque {
 		op[o] = true
 	}
+	opel := map[string]bool{}
+	for _, o := range opaqueEl {
+		opel[o] = true
+	}
 	out := Lexed{Tokens: []string{}, Keys: []KeyAt{}}
 	ki := 0
 	i := 0
-	for i < len(lx.Tokens) {
-		t := lx.Tokens[i]
-		out.Tokens = append(out.Tokens, t)
-		i++
-		if t != "K" || ki >= len(lx.Keys) {
-			continue
-		}
-		k := lx.Keys[ki]
-		ki++
-		out.Keys = append(out.Keys, k)
-		if !op[k.K] || i+1 >= len(lx.Tokens) || lx.Tokens[i] != ":" {
-			continue
-		}
-		if lx.Tokens[i+1] != "{" && lx.Tokens[i+1] != "[" {
-			continue
-		}
-		out.Tokens = append(out.Tokens, ":", "V")
+	// skip one structured value starting at token j (which is "{" or "["); returns the index after it and
+	// advances ki past the member names inside
+	skip := func(j int) int {
 		depth := 0
-		j := i + 1
 		for j < len(lx.Tokens) {
 			switch lx.Tokens[j] {
 			case "{", "[":
@@ -285,7 +274,41 @@ func Collapse(lx Lexed, opaque []string) Lexed {
 				break
 			}
 		}
-		i = j
+		return j
+	}
+	for i < len(lx.Tokens) {
+		t := lx.Tokens[i]
+		out.Tokens = append(out.Tokens, t)
+		i++
+		if t != "K" || ki >= len(lx.Keys) {
+			continue
+		}
+		k := lx.Keys[ki]
+		ki++
+		out.Keys = append(out.Keys, k)
+		if i+1 >= len(lx.Tokens) || lx.Tokens[i] != ":" {
+			continue
+		}
+		if op[k.K] && (lx.Tokens[i+1] == "{" || lx.Tokens[i+1] == "[") {
+			out.Tokens = append(out.Tokens, ":", "V")
+			i = skip(i + 1)
+			continue
+		}
+		if opel[k.K] && lx.Tokens[i+1] == "[" {
+			// an array whose ELEMENTS are rendered by an external marshaler: each structured element is one V
+			out.Tokens = append(out.Tokens, ":", "[")
+			j := i + 2
+			for j < len(lx.Tokens) && lx.Tokens[j] != "]" {
+				if lx.Tokens[j] == "{" || lx.Tokens[j] == "[" {
+					out.Tokens = append(out.Tokens, "V")
+					j = skip(j)
+				} else {
+					out.Tokens = append(out.Tokens, lx.Tokens[j])
+					j++
+				}
+			}
+			i = j
+		}
 	}
 	return out
 }
